@@ -424,6 +424,10 @@ func repoGarbageCollect(repo Repo, conf config.Config, index types.Index, locked
 				// track a map of responses only preserved when their subject remains
 				subjects[dig] = d.Copy()
 				keep = false
+				// a subject that is only recorded as the child of another manifest remains as long as untagged manifests are kept
+				if _, err := index.GetDesc(dig.String()); err == nil && !*conf.Storage.GC.Untagged {
+					keep = true
+				}
 			} else if !*conf.Storage.GC.ReferrersDangling {
 				// keep if dangling aren't GCed
 				keep = true
